@@ -120,9 +120,29 @@ CHECKS.update({
         technique="TLC-judged shift relation on paired runs of the TLA+ machine and on paired observations of the real code; trace validation at a non-trivial base", ref="5 (C12)"),
 })
 
+CHECKS.update({
+    "C08": dict(engine="Literals",
+        text="Literals.tla is a byte-level lexical specification of the eleven literal parsers (longest literal of the documented syntax, error position and kind, escape "
+             "decoding to code points and UTF-8, totality outside the well-formed domain); TLC enumerates for each parser every byte string up to 3-5 bytes over a "
+             "class-complete alphabet x every offset with the prescribed outcome, replayed on the real parsers; random / near-literal byte strings (digit runs around 2^63, "
+             "ill-escaped and unterminated strings, truncated runes, invalid UTF-8) are judged by LiteralsTrace.",
+        note="numeric / duration values and range decisions delegated to strconv / time, the regexp parser to Go's regexp (computed by the harness from the consumed bytes); "
+             "raw line break inside a double-quoted string after an escape: totality only",
+        technique="TLA+ lexical specification: TLC-exported exhaustive cases replayed into the real parsers + TLC-judged outcomes of random inputs", ref="5 (C08)"),
+    "C16": dict(engine="JsonDoc",
+        text="JsonDoc.tla is a document algebra: abstract value -> token rendering with a whitespace choice per gap -> optional corruption -> class -> obligation. TLC "
+             "exports every document of a bounded family (all scalars of the table alone and in arrays, containers up to depth 2, whitespace patterns, every applicable "
+             "corruption); random documents up to depth 6 are proposed by the harness and rendered / classified by the specification; the example parser and "
+             "encoding/json are run on each text and JsonDocTrace checks the obligation of the document's class.",
+        note="the example parser is a black box; scalar equality is encoding/json's (UseNumber); documents up to ~2 kB",
+        technique="TLA+ document algebra with TLC as the only renderer/classifier + differential observations against encoding/json judged by TLC", ref="5 (C16)"),
+})
+
 NOT_YET = {}
 
 ENGINES = [
+    dict(name="Literals", path="spec/Literals.tla", serves_properties=["C08"], kind_free_text="byte-level lexical specification; LiteralsMC (export), LiteralsTrace"),
+    dict(name="JsonDoc", path="spec/JsonDoc.tla", serves_properties=["C16"], kind_free_text="JSON document algebra; JsonDocMC / JsonDocRender (rendering), JsonDocTrace"),
     dict(name="Arith", path="spec/Arith.tla", serves_properties=["C05"], kind_free_text="byte-level reference evaluator; ArithMC (export), ArithTrace"),
     dict(name="TreePass", path="spec/TreePass.tla", serves_properties=["C13"], kind_free_text="Walk machine + pass definitions; TreePassMC (export), TreePassTrace"),
     dict(name="Reader", path="spec/Reader.tla", serves_properties=["C09"], kind_free_text="byte-level reader specification + cursor machine; ReaderMC, ReaderTrace"),
